@@ -49,6 +49,16 @@ def target_periodic():
                 periodic=[0], reflective=None, tags=["periodic"])
 
 
+def target_reflective_edge():
+    # half Gaussian piled up at the face x0 = +4 of a REFLECTIVE coordinate: accepted moves cross the face and are folded back
+    s = 0.6
+    like = lambda x: -0.5 * (float(x[0] - 4.0) ** 2 + float(x[1]) ** 2) / s ** 2
+    truth = 4.0 - s * math.sqrt(2.0 / math.pi)
+    logz = math.log(2 * math.pi * s * s) + math.log(0.5) - math.log(64.0)
+    return dict(d=2, like=like, stat=lambda x: x[:, 0], truth=truth, scale=s, logz=logz, periodic=None, reflective=[0],
+                tags=["reflective"])
+
+
 def target_bimodal():
     s = 0.35
     m1, m2 = np.array([-2.0, -2.0]), np.array([2.0, 2.0])
@@ -107,7 +117,7 @@ def target_sharp():
                 tags=["sharp"], half=500.0)
 
 
-TARGETS = {"minor": target_minor, "sharp": target_sharp, "interior": target_interior, "boundary": target_boundary, "periodic": target_periodic, "bimodal": target_bimodal,
+TARGETS = {"reflective_edge": target_reflective_edge, "minor": target_minor, "sharp": target_sharp, "interior": target_interior, "boundary": target_boundary, "periodic": target_periodic, "bimodal": target_bimodal,
            "cauchy": target_cauchy, "correlated": target_correlated}
 
 
@@ -161,14 +171,15 @@ def run_cell(cell, what, R):
     if out["fails"] and not identical:
         if "hard-boundary" in t["tags"]:
             out["known_id"] = "F16_hard_boundary_redraw"
-        elif "periodic" in t["tags"] and cell["kernel"] == "tpcn":
+        elif ("periodic" in t["tags"] or "reflective" in t["tags"]) and cell["kernel"] == "tpcn":
             out["known_id"] = "F17_tpcn_fold"
     return out
 
 
 def _cells(tier):
     cells = []
-    for target in ("minor", "sharp", "cauchy", "correlated", "interior", "bimodal", "periodic", "boundary"):
+    # `periodic` (von-Mises peak AT the seam) and `reflective_edge` have posterior mass at a folded face; with tpCN they are F17
+    for target in ("reflective_edge", "periodic", "minor", "sharp", "cauchy", "correlated", "interior", "bimodal", "boundary"):
         for kernel in ("tpcn", "rwm"):
             if target == "sharp" and kernel == "rwm":
                 continue        # finite-particle error of the random-walk kernel on this target is large on correct code too
